@@ -206,7 +206,7 @@ class TlcResult:
         m = re.search(r"Action property (\S+) is violated", out)
         if m:
             self.invariant = m.group(1)
-        if "Temporal properties were violated" in out:
+        if re.search(r"Temporal propert(y|ies) .*(was|were) violated", out):
             self.invariant = self.invariant or "temporal"
         self.error = None
         if not self.ok and self.invariant is None:
